@@ -107,7 +107,7 @@ def run(ctx):
         "reward channel = one complement-coded scalar (width 2); wider reward channels (flat arg-max) are outside",
         "'r alone before any training' is read as Q = 0 in the formula, i.e. the target is clip(td_alpha * r)",
     ]
-    N = ctx.scale(900, 7000)
+    N = ctx.scale(700, 7000)
     lines, metas = [], []
     for i in range(N):
         r = gen.rng_for(ctx.seed, "C16", i)
